@@ -74,6 +74,9 @@ def explore(ctx, prop):
         'index arrays': 'identity, reversed, all-equal (inputs), scattered+odd offsets, with repeats (inputs), permuted x997',
         'value passes': 'tags (every arena position its own value) + boundary values {0,1,p-1,p,p+1,2^32-1,2^32,2^64-1,2^63,0xFFFFFFFE00000001,0x5555555555555555} '
                         'at position j: B[(j*m + r + d_b) mod 11], all r, all d_b; m=1 (quick) / m=1..10 (thorough)',
+        'alias forms (rule: decls.can_share)': {it['id']: it['alias'] for it in items if it.get('alias')},
+        'alias enumeration': 'shared object gets one geometry (unit/identity when a unit array is involved, else same stride or same index pattern); '
+                             'quick: strides {unit,5}, indices {identity,scattered}, tags + 11 rotations x d_b in {0,5}; thorough: full stride/index alphabets, all d_b',
         'isa': [s[0] for s in ctx.ovl_steps],
     })
     for nt in ctx.ovl_notes:
